@@ -313,7 +313,7 @@ def _const_seq(module_top, e):
 
 
 def might_unroll(node: ast.AST, module_top=None) -> bool:
-    return any(isinstance(n, ast.For) and (_const_seq(module_top, n.iter) is not None or
+    return any(isinstance(n, ast.For) and (_const_seq(module_top, n.iter) is not None or (isinstance(n.iter, (ast.Tuple, ast.List)) and any(isinstance(e, ast.Starred) for e in n.iter.elts)) or
                                            (isinstance(n.iter, ast.Attribute) and isinstance(n.iter.value, ast.Name) and n.iter.attr.isupper() or
                                             (isinstance(n.iter, ast.Attribute) and isinstance(n.iter.value, ast.Name) and n.iter.attr.lstrip("_").isupper())))
                for n in ast.walk(node))
@@ -359,6 +359,18 @@ def unroll_literal_loops(fn: ast.AST, module_top=None, class_consts=None, class_
 
     def seq(loop):
         it = loop.iter
+        if isinstance(it, (ast.Tuple, ast.List)) and any(isinstance(e, ast.Starred) for e in it.elts):
+            # `(*owners, self)` with `owners` a local bound once to a display: the display with the splat spelled out
+            flat = []
+            for e in it.elts:
+                if isinstance(e, ast.Starred):
+                    v = local_literal(e.value.id) if isinstance(e.value, ast.Name) and e.value.id in local_stores else (e.value if isinstance(e.value, (ast.Tuple, ast.List)) else None)
+                    if not isinstance(v, (ast.Tuple, ast.List)):
+                        return None
+                    flat.extend(v.elts)
+                else:
+                    flat.append(e)
+            return ast.Tuple(flat, ast.Load()) if all(_simple(x) for x in flat) else None
         if isinstance(it, ast.Name) and it.id in local_stores:
             v = local_literal(it.id)
             if isinstance(v, (ast.Tuple, ast.List)):
